@@ -19,7 +19,7 @@
 #include <time.h>
 
 enum { F_WRAPPED_ACQ, F_RESET_ACQ, F_UPTO_PARTIAL, F_FAIL_FRAGMENTED, F_FULL_AFTER_DRAIN, F_EXACT_FULL, F_TAIL_SPACE, F_OVERSIZE_REFUSED,
-       F_RELEASE_DURING_ACQUIRE, F_ACQUIRER_WAITED, F_RELEASER_WAITED, F_EMPTY_SEEN, F_UPTO_HUGE, F_HUGE_RING };
+       F_RELEASE_DURING_ACQUIRE, F_ACQUIRER_WAITED, F_RELEASER_WAITED, F_EMPTY_SEEN, F_UPTO_HUGE, F_HUGE_RING, F_UPTO_MIN_ABOVE_RING };
 
 static const size_t RING_SIZES[] = {1, 2, 3, 7, 16, 64, 100, 255, 4096};
 #define N_RING_SIZES (sizeof(RING_SIZES) / sizeof(RING_SIZES[0]))
@@ -224,12 +224,21 @@ static void seq_case(void) {
                     mon_flag(F_UPTO_HUGE);
                 }
             }
+            if (mon_chance(r, 1, 16)) {
+                /* an up-to request whose MINIMUM cannot be met even by the empty ring: must be refused and must leave the
+                 * ring as it was (what follows is judged as usual) */
+                upto = true;
+                minimum = ring + 1 + (size_t)mon_below(r, 4);
+                req = mon_chance(r, 1, 3) ? SIZE_MAX : minimum + (size_t)mon_below(r, 4);
+                oversize = true;
+                mon_flag(F_UPTO_MIN_ABOVE_RING);
+            }
             mon_fp(upto ? 2 : 1);
             mon_fp(req);
             mon_fp(minimum);
             struct aws_byte_buf dest;
             AWS_ZERO_STRUCT(dest);
-            aws_reset_error();
+            mon_poison_last_error(&mon_case_rng);
             int rc = upto ? aws_ring_buffer_acquire_up_to(&rb, minimum, req, &dest) : aws_ring_buffer_acquire(&rb, req, &dest);
             mon_sample(" %s(%zu%s%zu)%s", upto ? "upto" : "acq", minimum, upto ? ".." : "/", req, rc ? "=ERR" : "");
             if (rc == AWS_OP_SUCCESS) {
@@ -303,6 +312,9 @@ static void seq_case(void) {
             }
             if (oversize && rc == AWS_OP_SUCCESS && !upto) {
                 mon_violation("C15:seq:oversize-granted", "ring=%zu: acquire(%zu) succeeded", ring, req);
+            }
+            if (upto && minimum > ring && rc == AWS_OP_SUCCESS) {
+                mon_violation("C15:seq:oversize-granted", "ring=%zu: acquire_up_to(min %zu, req %zu) succeeded", ring, minimum, req);
             }
         } else if (outstanding > 0) {
             /* release the oldest */
@@ -624,7 +636,8 @@ int main(int argc, char **argv) {
     static const char *names[] = {"acquire_wrapped_to_start", "acquire_with_nothing_outstanding", "up_to_partial_grant", "failure_while_fragmented",
                                   "full_capacity_after_drain", "exact_full_ring_acquired", "space_before_tail_used", "oversize_refused",
                                   "release_completed_during_acquire", "acquirer_waited_for_space", "releaser_waited_for_data", "ring_drained_mid_history",
-                                  "up_to_request_far_beyond_ring_incl_SIZE_MAX", "ring_of_4GiB_or_more"};
+                                  "up_to_request_far_beyond_ring_incl_SIZE_MAX", "ring_of_4GiB_or_more",
+                                  "up_to_minimum_above_ring_size_refused"};
     for (int i = 0; i < (int)(sizeof(names) / sizeof(names[0])); ++i) {
         mon_flag_name(i, names[i]);
     }
